@@ -2,4 +2,5 @@
 EXTENDS Gossip
 MC_Cluster == [n \in Node |-> "c"]
 MC_ClusterSplit == [n \in Node |-> IF n = "n3" THEN "C" ELSE "c"]
+MC_Addr == [n \in Node |-> n]
 ====
